@@ -76,6 +76,8 @@ type Contract struct {
 	}
 	Replay string
 	Where  string
+	Opaque []string
+	PerReturn bool
 	Props map[string]bool // property tags mentioned
 	SafetyProps map[string]bool // properties owning the implicit safety/termination obligations
 }
@@ -330,7 +332,7 @@ func findDefEq(s string) int {
 func parseContract(key string, clauses []string, where string) (*Contract, error) {
 	c := &Contract{Key: key, LoopInv: map[int][]*Clause{}, LoopDecr: map[int][]*Expr{}, LoopMod: map[int][]*Expr{}, Where: where, Props: map[string]bool{}, SafetyProps: map[string]bool{}}
 	// clauses may themselves have been continued: a clause starts with a keyword
-	kw := regexp.MustCompile(`^(requires|ensures|modifies|allocates|pure|trusted|decreases|loop|maypanic|let|safety|formals|results|witness|replay|site)\b`)
+	kw := regexp.MustCompile(`^(requires|ensures|modifies|allocates|pure|trusted|decreases|loop|maypanic|let|safety|formals|results|witness|replay|site|opaque|perreturn)\b`)
 	var merged []string
 	for _, l := range clauses {
 		l = strings.TrimSpace(l)
@@ -402,6 +404,21 @@ func parseContract(key string, clauses []string, where string) (*Contract, error
 			}
 		case "formals":
 			c.Formals = splitTop(rest)
+		case "perreturn":
+			// ensures clauses are checked at each return statement separately instead of at the merged exit
+			c.PerReturn = true
+		case "opaque":
+			// spec functions whose definitions are hidden (uninterpreted) in this function's obligations
+			// optional property tags: "opaque [C03] f g" hides the definitions only in runs for those properties
+			otags, orest := parseTags(rest + " ")
+			for _, n := range strings.Fields(strings.ReplaceAll(orest, ",", " ")) {
+				if len(otags) == 0 {
+					c.Opaque = append(c.Opaque, n)
+				}
+				for _, t := range otags {
+					c.Opaque = append(c.Opaque, t+":"+n)
+				}
+			}
 		case "results":
 			c.Results = splitTop(rest)
 		case "allocates":
